@@ -196,10 +196,17 @@ def run(F, chk):
         if set(cs) == expect:
             ra.ok(key, where, "terminal responses per path: %s" % cs)
         else:
+            # site ordinals are renumbered among the sites that take part in THIS variant's paths: an unrelated arm
+            # gaining or losing a `WorkerResponse::error(..)` does not rename this variant's finding
+            allo = sorted({o for (_, os_) in accs for o in os_}, key=lambda o: (o.rsplit("#", 1)[0], int(o.rsplit("#", 1)[1]) if o.rsplit("#", 1)[1].isdigit() else 0))
+            rank = {}
+            for o in allo:
+                base = o.rsplit("#", 1)[0]
+                rank[o] = "%s#%d" % (base, len([x for x in rank if x.rsplit("#", 1)[0] == base]))
             for (n, origins) in accs:
                 if n in expect:
                     continue
-                k2 = "%s|count %d|origins %s" % (key, n, ",".join(short_site(o) for o in origins) or "-")
+                k2 = "%s|count %d|origins %s" % (key, n, ",".join(short_site(rank.get(o, o)) for o in origins) or "-")
                 ra.violation(k2, where, "a path for %s queues %d terminal responses (want %s); terminal statuses built at: %s"
                              % (V, n, sorted(expect), list(origins) or "nowhere"))
     ra.fn(*sorted(eng.functions))
